@@ -136,3 +136,5 @@ mod shapes_basic;
 mod shapes_keys;
 #[cfg(any(verif_unit = "all", verif_unit = "shapes_struct", verif_unit = "shapes_struct_t"))]
 mod shapes_struct;
+#[cfg(any(verif_unit = "all", verif_unit = "value_routing"))]
+mod value_routing;
